@@ -1,20 +1,36 @@
 /-
-C15 — URLs keep their meaning between IRI, URI, environ and request.
-Property theorems only (helper lemmas live in Lemmas/Url.lean).
+C15 - URLs keep their meaning between IRI, URI, environ and request.
+Property theorems only (helper lemmas live in Lemmas/Url*.lean).
 
-Opaque to the model (validated by the streams only): urlsplit / urlunsplit, the IDNA codec.
-Repaired in /repo and kept as regression cases of stream iri-uri: F15a (`_decode_idna` now leaves a
-malformed `xn--` label as punycode, c7898ed - IDNA is opaque here), F15b (`[` and `]` are now in the
-keep-quoted set of the userinfo, 319c4e1 - stated in `keep_tables_cover_reserved`).
-Known finding with a negation witness below: F15c (`environ_path_full_false`: urlsplit inside
-EnvironBuilder drops TAB/CR/LF). F15d (`get_current_url` left a literal `%XX` of the unquoted path
-unquoted) was repaired in /repo (899f28c) and is a regression case of stream environ-kernel.
+Modelled (validated by the streams, tied by regenerated tables): urllib quote / unquote with werkzeug's
+codec error handler, urlsplit / urlunsplit and the SplitResult attributes, iri_to_uri / uri_to_iri,
+the latin-1 dances, EnvironBuilder (__init__ with every argument form, properties, get_environ,
+from_environ), Request (path, root_path, host, args, full_path, url / base_url / root_url / host_url),
+sansio get_host / get_current_url, wsgi.get_current_url, DispatcherMiddleware, ProxyFix.
+Opaque (stated laws `HostLaws` / `AsciiHostLaws`, shown satisfiable): ipaddress validation of a bracketed
+host, the NFKC test of `_checknetloc`, `hostname.lower()` + IDNA codec / `_decode_idna`;
+`parse_list_header` (C06) for ProxyFix; `_urlencode` / `parse_qsl` are C02's model.
 
-All theorems listed in DESIGN.md for C15 (P0 and P1) are proved below; nothing is left OPEN.
+Repaired in /repo and kept as regression cases of stream iri-uri: F15a (`_decode_idna` leaves a
+malformed `xn--` label as punycode, c7898ed), F15b (`[` `]` in the keep-quoted set of the userinfo,
+319c4e1 - `keep_tables_cover_reserved`); F15d (899f28c) and F15e (16e16ac) are regression cases of
+stream environ-kernel. Known finding with a negation witness: F15c (`environ_path_full_false`: urlsplit
+inside EnvironBuilder drops TAB/CR/LF) - the explicit exclusion of `environ_url_roundtrip`.
+
+All theorems listed in DESIGN.md for C15 (P0 and P1) are proved below; nothing is left OPEN:
+`environ_url_roundtrip` starts at EnvironBuilder's ARGUMENTS, every exclusion has a necessity witness.
 -/
 import WzVerif.Lemmas.UrlStable
 import WzVerif.Lemmas.UrlDenote
+import WzVerif.Lemmas.UrlBuilder
+import WzVerif.Lemmas.UrlBuilderForms
+import WzVerif.Lemmas.UrlFamily
+import WzVerif.Lemmas.UrlFamilySplit
+import WzVerif.Lemmas.UrlFromEnviron
+import WzVerif.Lemmas.UrlDispatch
+import WzVerif.Lemmas.UrlProxyFix
 import WzVerif.Model.UrlEnviron
+import WzVerif.Gen.UrlGlue
 namespace Wz.Props.C15
 open Wz Wz.Url
 
@@ -199,7 +215,7 @@ theorem plainOpaque_spec (h r : Str) :
   · cases key
 
 /-- the laws assumed of the opaque host conversions are satisfiable -/
-example : HostLaws plainOpaque := by
+theorem plainOpaque_hostLaws : HostLaws plainOpaque := by
   refine ⟨?_, ?_, ?_, ?_, ?_, fun _ _ _ _ => rfl, fun _ _ _ _ => rfl, fun _ => rfl⟩
   · intro h r hr; have := plainOpaque_spec h r (Or.inl hr); exact ⟨this.2.1, this.2.2.1⟩
   · intro h r hr; have := plainOpaque_spec h r (Or.inr hr); exact ⟨this.2.1, this.2.2.1⟩
@@ -375,15 +391,72 @@ theorem current_url_quoting_is_lossless :
 
 example : unquote (quote Gen.UrlTables.curPathSafe "/100%41 é?#".toList) = "/100%41 é?#".toList := by decide
 
--- OPEN (full `environ_url_roundtrip`): the same conclusion for
---   requestView o (← builderEnviron o path baseUrl qs)
--- i.e. with EnvironBuilder's own parsing in front. Missing lemmas: `urlsplit_path_only`
--- (urlsplit o p = .ok ⟨[], [], p, [], []⟩ and iriToUriText o p = .ok (quote iriPathSafe p) for a path text
--- p that starts with one '/' and has no '?', '#', TAB/CR/LF - TAB/CR/LF being the F15c exclusion) and
--- `builder_base_split` (the scheme / netloc / script_root EnvironBuilder reads from
--- iri_to_uri(base_url), with unquoteReplace (rstripSlash (quote s)) = rstripSlash s). The pipeline is
--- modelled end to end (Model/UrlEnviron.lean) and compared with the real code by stream
--- environ-kernel; the PATH_INFO half is `environ_path_roundtrip`.
+/-- **`environ_url_roundtrip` - from the builder's ARGUMENTS to the request.** For every
+`EnvironBuilder(path=p, base_url=scheme://host[:port]root, query_string=qs)` with
+* `p` a URL path of the property's domain (`PathArg`: starts with exactly one `/` - "paths not
+  starting with '//'" -, no `?` / `#`, no TAB / CR / LF - known finding F15c) without `%` (a `%XX` in the
+  path argument is an escape, not text),
+* a base URL of the grammar (`BaseArg`: valid lower-case scheme, any host text the opaque IDNA step
+  accepts - ASCII, IDN, IPv4, IPv6 -, any port ≤ 65535, a root path without `?` / `#` / `%`),
+* any Unicode query string whose `%` all start `%XX` escapes,
+under the stated laws of the opaque host conversions: the environ is built; `Request.path` is exactly
+`p`; `Request.root_path` is the root without trailing slashes; `Request.host` is the IDNA host with
+the port, the scheme's default port dropped and nothing else; `Request.url` splits back into the
+scheme, the decoded host (`hu`, which the laws guarantee to exist) with that port, a path component
+that denotes `root_path + path`, a query component that denotes what the query string denotes, and no
+fragment.
+(`urlsplit(path)`, both `iri_to_uri` calls, the `base_url` setter, `_path_encode`, the dances,
+`Request.__init__`, `get_host`, `get_current_url` / `uri_to_iri` are all inside the model.) -/
+theorem environ_url_roundtrip (o : UrlOpaque) (laws : HostLaws o)
+    (scheme h ha root p qs : Str) (port : Option Nat)
+    (b : BaseArg o scheme h port root) (hp : PathArg p) (hpp : '%' ∉ p) (hrp : '%' ∉ root)
+    (hq : wellFormed (quoteBytes Gen.UrlTables.curQuerySafe (utf8Enc qs)) = true)
+    (hconv : o.hostToAscii h = some ha) :
+    ∃ e rv t hu, builderEnviron o p (baseText scheme h port root) qs = .ok e ∧ requestView o e = .ok rv ∧
+      rv.path = p ∧ rv.rootPath = rstripSlash root ∧
+      rv.host = hostBr ha ++ portText (dropDefaultPort scheme port) ∧
+      urlsplit o rv.url = .ok t ∧ t.scheme = scheme ∧ o.hostToUnicode ha = some hu ∧
+      t.netloc = hostBr hu ++ portText (dropDefaultPort scheme port) ∧
+      unquote t.path = rstripSlash root ++ p ∧
+      unquote t.query = unquote (quote Gen.UrlTables.curQuerySafe qs) ∧ t.fragment = [] := by
+  obtain ⟨hu, hconvu⟩ := laws.u_of_a _ _ hconv
+  obtain ⟨e, rv, t, h1, h2, h3, h4, h5, h6, h7, h8, h9, h10, h11⟩ :=
+    builder_request_roundtrip laws keep_tables_ok b hp hpp hrp hq hconv hconvu
+  exact ⟨e, rv, t, hu, h1, h2, h3, h4, h5, h6, h7, hconvu, h8, h9, h10, h11⟩
+
+example : BaseArg plainOpaque "https".toList "example.com".toList (some 443) "/ap p/é/".toList :=
+  ⟨⟨by decide, by decide, by unfold noTab; decide⟩, by decide, by decide, by intro k hk; cases hk; decide,
+    by decide, by decide, by decide, by decide, by unfold noTab; decide⟩
+example : PathArg "/é x/日本;v=1".toList :=
+  ⟨by decide, by decide, by decide, by decide, by unfold noTab; decide⟩
+example : baseText "https".toList "example.com".toList (some 443) "/ap p/é/".toList
+    = "https://example.com:443/ap p/é/".toList := by decide
+example : (((builderEnviron plainOpaque "/é x/日本;v=1".toList "https://example.com:443/ap p/é/".toList
+      "q=é&x=%41".toList).bind (requestView plainOpaque)).toOption.map
+        (fun r => (r.path, r.rootPath, r.host, r.url)))
+    = some ("/é x/日本;v=1".toList, "/ap p/é".toList, "example.com".toList,
+        "https://example.com/ap%20p/é/é%20x/日本;v=1?q=é&x=A".toList) := by decide
+
+/-- **Every exclusion of `environ_url_roundtrip` is needed** (the model run on the excluded input):
+a path starting with `//` loses its first segment (it is read as an authority); `#` cuts the path
+(fragment); `?` next to a `query_string` argument is refused; a `%XX` in the path or in the base
+URL's path is an escape and comes back decoded; (TAB / CR / LF: `environ_path_full_false`, F15c). -/
+theorem environ_url_roundtrip_exclusions_needed :
+    let run := fun (p base : String) =>
+      ((builderEnviron plainOpaque p.toList base.toList []).bind (requestView plainOpaque)).toOption.map
+        (fun r => (String.ofList r.rootPath, String.ofList r.path))
+    run "//x/y" "http://localhost/" = some ("", "/y") ∧
+    run "/a#b" "http://localhost/" = some ("", "/a") ∧
+    run "/a?b" "http://localhost/" = none ∧
+    run "/%41" "http://localhost/" = some ("", "/A") ∧
+    run "/p" "http://localhost/%41/" = some ("/A", "/p") := by decide
+
+/-- ... and so is the `%XX` grammar of the query string for the clause about the query component:
+for `%%34%31` the URL's query reads `%41`, which denotes `A`, not what the query string denotes. -/
+theorem environ_url_roundtrip_query_grammar_needed :
+    (((builderEnviron plainOpaque "/".toList "http://localhost/".toList "%%34%31".toList).bind
+      (requestView plainOpaque)).toOption.map (fun r => r.url)) = some "http://localhost/?%41".toList ∧
+    unquote "%41".toList ≠ unquote (quote Gen.UrlTables.curQuerySafe "%%34%31".toList) := by decide
 
 /-- **`environ_url_roundtrip_partial` - the request side.** For an environ whose SCRIPT_NAME,
 PATH_INFO and QUERY_STRING are the latin-1 dances of `root`, `p` and `qs` (what `EnvironBuilder`
@@ -498,5 +571,327 @@ example : dispatch ["/api".toList, "/api/v1".toList] "/api/v1/users".toList =
     ⟨"/api/v1".toList, "/users".toList, some "/api/v1".toList⟩ := by decide
 example : dispatch ["/api".toList] "/apix/y".toList = ⟨[], "/apix/y".toList, none⟩ := by decide
 example : BP "/api".toList "/api/v1".toList := ⟨"/v1".toList, by decide, Or.inr (by decide)⟩
+
+/-- **A path that no mount matches reaches the default app untouched**: for a PATH_INFO that is empty
+or starts with `/` (what a WSGI server sends), when the default app is selected nothing is appended to
+SCRIPT_NAME and PATH_INFO is unchanged - for every mount table (nested prefixes, keys with trailing
+slashes, the empty key included). -/
+theorem dispatcher_default_unchanged (mounts : List Str) (p : Str) (hp : p = [] ∨ p.head? = some '/')
+    (h : (dispatch mounts p).mount = none) :
+    (dispatch mounts p).script = [] ∧ (dispatch mounts p).pathInfo = p :=
+  dispatch_default_unchanged mounts p hp h
+
+example : dispatch ["/api".toList, "/api/".toList] "/apix/y".toList = ⟨[], "/apix/y".toList, none⟩ := by decide
+/-- the hypothesis is needed: a PATH_INFO without a leading slash is moved to SCRIPT_NAME as a whole
+(the concatenation is still preserved) -/
+theorem dispatcher_default_needs_leading_slash :
+    dispatch ["/api".toList] "abc".toList = ⟨"abc".toList, [], none⟩ := by decide
+/-- mounts that are prefixes of each other, a trailing slash in a key, the empty key -/
+example : dispatch ["/a".toList, "/a/b".toList, "/a/b/".toList, []] "/a/b/c".toList =
+    ⟨"/a/b".toList, "/c".toList, some "/a/b".toList⟩ := by decide
+example : dispatch ["/a".toList, "/a/b".toList, "/a/b/".toList, []] "/a/b/".toList =
+    ⟨"/a/b/".toList, [], some "/a/b/".toList⟩ := by decide
+example : dispatch ["/a".toList, []] "/x".toList = ⟨[], "/x".toList, some []⟩ := by decide
+
+/-! ### EnvironBuilder's argument forms, `Request.args`, `Request.full_path` -/
+
+/-- `_urlencode`'s safe set (C02's regenerated literal) keeps `%`, `+`, `&`, `=` escaped, and it is the
+literal this property's table generator found at the same call site -/
+theorem urlencode_safe_ok :
+    Urlencode.SafeOk Gen.Urlencode.urlencodeSafe ∧
+    Gen.UrlTables.urlencodeSafe.map (fun c => UInt8.ofNat c.toNat) = Gen.Urlencode.urlencodeSafe := by
+  decide +kernel
+
+/-- `EnvironBuilder(path, base_url, query_string=<str>)` of `environ_url_roundtrip` is the general
+constructor (`builderInit`, every argument form) at that form: the theorems about `builderEnviron`
+are theorems about `EnvironBuilder.__init__` + `get_environ`. -/
+theorem builder_str_form (o : UrlOpaque) (path base qs : Str) :
+    builderEnviron o path base qs =
+      (builderInit o path (some base) (.text qs)).map (fun b => b.environ.toEnviron) :=
+  builderEnviron_eq_init o path base qs
+
+/-- **Which query string the builder sends, per argument form**: a `str` as given; `_urlencode` of a
+dict / MultiDict / list of pairs; the query component of `path` when only the path carries one
+(`EnvironBuilder("/a?b=c")`); the empty string otherwise. -/
+theorem builder_query_forms (o : UrlOpaque) (path : Str) (base : Option Str) (q : QueryArg) (b : Builder)
+    (h : builderInit o path base q = .ok b) :
+    ∃ ru, urlsplit o path = .ok ru ∧ b.queryText = (match q with
+      | .text s => s
+      | .items l => urlencodeText l
+      | .absent => if path.contains '?' then ru.query else []) :=
+  builderInit_queryText h
+
+example : ((builderInit plainOpaque "/a?b=c&d".toList none .absent).toOption.map
+    (fun b => (b.queryText, b.environ.pathInfo, b.environ.requestUri)))
+    = some ("b=c&d".toList, "/a".toList, "/a?b=c&d".toList) := by decide
+
+/-- a query in the path next to a `query_string` argument (of any form) is refused with ValueError -/
+theorem builder_path_and_query_refused (o : UrlOpaque) (path : Str) (base : Option Str) (q : QueryArg)
+    (hq : q.given = true) (hp : '?' ∈ path) : builderInit o path base q = .error "ValueError" :=
+  builderInit_both_refused o path base q hq hp
+
+example : (builderInit plainOpaque "/a?b=c".toList none (.items [("x".toList, "y".toList)])).toOption.isNone = true := by
+  decide
+
+/-- **`Request.args` recovers the query mapping exactly, for all Unicode**: for every list of pairs
+(repeated keys, empty keys / values, `&`, `=`, `+`, `%`, `#` inside them) given as `query_string`, with
+any path and base URL the builder accepts: the builder's own `args` property and `Request.args` of the
+environ it builds are that list - `_urlencode`, the encoding dance, `encode("latin1")`, the decoding
+with werkzeug's error handler and `parse_qsl` compose to the identity (C02's `parseQsl_urlencode`). -/
+theorem builder_args_roundtrip (o : UrlOpaque) (path : Str) (base : Option Str) (l : List (Str × Str))
+    (b : Builder) (h : builderInit o path base (.items l) = .ok b) :
+    b.argsProp = .ok l ∧ requestArgs b.environ.toEnviron = some l :=
+  Wz.Url.builder_args_roundtrip urlencode_safe_ok.1 h
+
+example : ((builderInit plainOpaque "/".toList none (.items [("a b".toList, "&=+%#é".toList), ([], [])])).toOption.map
+    (fun b => (b.queryText, requestArgs b.environ.toEnviron)))
+    = some ("a+b=%26%3D%2B%25%23%C3%A9&=".toList, some [("a b".toList, "&=+%#é".toList), ([], [])]) := by
+  decide +kernel
+
+/-- for the `str` form `Request.args` is `parse_qsl` of exactly that string (every Unicode string), and
+the builder's `args` property is unavailable (AttributeError: "a query string is defined") -/
+theorem builder_text_args (o : UrlOpaque) (path : Str) (base : Option Str) (s : Str) (b : Builder)
+    (h : builderInit o path base (.text s) = .ok b) :
+    b.argsProp = .error "AttributeError" ∧
+    requestArgs b.environ.toEnviron = some (Urlencode.parseQsl true s) :=
+  Wz.Url.builder_text_args h
+
+/-- **`Request.full_path` is `path + "?" + query`** - the `?` is there even when the query string is
+empty - for every environ whose PATH_INFO / QUERY_STRING are the dances of Unicode texts. -/
+theorem full_path_keeps_question_mark (scheme host root p qs : Str) :
+    requestFullPath (danceEnviron scheme host root p qs) = some (('/' :: lstripSlash p) ++ '?' :: qs) :=
+  requestFullPath_dance scheme host root p qs
+
+example : requestFullPath (danceEnviron "http".toList "h".toList [] "/é".toList []) = some "/é?".toList := by decide
+
+/-- **`EnvironBuilder.from_environ` round trip.** For the environ a builder produces from arguments of
+the property's domain (host in its ASCII form, path and root without `%`; `PathArg`, `BaseArg`):
+`from_environ(environ)` succeeds, and the builder it returns builds the same SCRIPT_NAME, PATH_INFO,
+QUERY_STRING, HTTP_HOST and wsgi.url_scheme again (`_make_base_url`, the decoding dances and the whole
+of `__init__` / `get_environ` in between). -/
+theorem from_environ_roundtrip (o : UrlOpaque) (laws : HostLaws o) (scheme ha root p qs : Str)
+    (port : Option Nat) (b : BaseArg o scheme ha port root) (hp : PathArg p) (hpp : '%' ∉ p) (hrp : '%' ∉ root)
+    (hfix : o.hostToAscii ha = some ha) :
+    ∃ b', fromEnviron o (danceEnviron scheme (hostBr ha ++ portText port) (rstripSlash root) p qs) = .ok b' ∧
+      b'.environ.toEnviron = danceEnviron scheme (hostBr ha ++ portText port) (rstripSlash root) p qs :=
+  Wz.Url.from_environ_roundtrip laws qs b hp hpp hrp hfix
+
+example : ((fromEnviron plainOpaque (danceEnviron "https".toList "example.com:8443".toList "/ap p".toList
+    "/é x".toList "q=é".toList)).toOption.map (fun b => (b.baseUrl, b.environ.pathInfo, b.environ.scriptName)))
+    = some ("https://example.com:8443/ap%20p/".toList, encodingDance "/é x".toList, "/ap p".toList) := by decide
+
+/-- the exclusions are needed here too, and they bite harder: `from_environ` hands the DECODED
+PATH_INFO to a parameter that reads `%XX`, `?` and `#` as URL syntax - the environ of a request for
+`/%2541` (PATH_INFO `/%41`) comes back with PATH_INFO `/A`, the one for `/a%3Fb` (PATH_INFO `/a?b`) is
+refused with ValueError, the one for `/a%23b` loses `#b`. (Not a clause of the property text - the
+property speaks about arguments given to the builder - but worth knowing: see the report.) -/
+theorem from_environ_reinterprets_decoded_path :
+    let run := fun (p : String) =>
+      (fromEnviron plainOpaque (danceEnviron "http".toList "localhost".toList [] p.toList [])).toOption.map
+        (fun b => String.ofList b.environ.pathInfo)
+    run "/%41" = some "/A" ∧ run "/a?b" = none ∧ run "/a#b" = some "/a" := by decide
+
+/-! ### `Request.url` / `base_url` / `root_url` (`url_root`) / `host_url` -/
+
+/-- **The URL family as text.** For an environ whose SCRIPT_NAME / PATH_INFO / QUERY_STRING are the
+dances of `root`, `p`, `qs`, with a URI-form host that `get_host` leaves alone, and
+`H = scheme://<decoded host>[:port]`:
+`host_url = H/`; `root_url` (`url_root`) `= H + <root>/`; `base_url = root_url + <path>` (the path
+without its leading slashes); `url = base_url` followed by `?<query>` exactly when the query string is
+not empty - `<root>/`, `<path>`, `<query>` being the partially unquoted quoted texts, which denote
+`root_path + "/"`, `path` and the query (`url_root_denotes`, `environ_url_roundtrip_partial`).
+`script_root` / `url_root` are aliases of `root_path` / `root_url` (checked by the streams). -/
+theorem request_url_family (o : UrlOpaque) (laws : HostLaws o)
+    (scheme ha hu root p qs : Str) (port : Option Nat)
+    (ci : CurInput o scheme ha port (rstripSlash root) (utf8Enc qs)) (hconv : o.hostToUnicode ha = some hu)
+    (hgh : getHost scheme (hostBr ha ++ portText port) = hostBr ha ++ portText port) :
+    ∃ H rootUrl baseUrl, H = scheme ++ "://".toList ++ (hostBr hu ++ portText port) ∧
+      rootUrl = H ++ unquotePartial Gen.UrlTables.keepPath (curPathText (rstripSlash root) []) ∧
+      baseUrl = rootUrl ++ unquotePartial Gen.UrlTables.keepPath (quote Gen.UrlTables.curPathSafe (lstripSlash p)) ∧
+      requestUrls o (danceEnviron scheme (hostBr ha ++ portText port) root p qs) = .ok
+        (baseUrl ++ (if (utf8Enc qs).isEmpty then [] else
+            '?' :: unquotePartial Gen.UrlTables.keepQuery (quote Gen.UrlTables.curQuerySafe qs)),
+         baseUrl, rootUrl, H ++ ['/']) := by
+  refine ⟨_, _, _, rfl, rfl, rfl, ?_⟩
+  rw [Wz.Url.request_url_family laws keep_tables_ok ci hconv hgh, curPathText_split, lstripSlash_cons]
+  simp only [List.append_assoc]
+
+example : (requestUrls plainOpaque (danceEnviron "http".toList "example.com:8080".toList "/app/".toList
+    "/é x".toList "q=é".toList)).toOption
+    = some ("http://example.com:8080/app/é%20x?q=é".toList, "http://example.com:8080/app/é%20x".toList,
+        "http://example.com:8080/app/".toList, "http://example.com:8080/".toList) := by decide
+
+/-- `url_root`'s path component denotes `root_path + "/"` -/
+theorem url_root_denotes (root : Str) (hr : root = [] ∨ root.head? = some '/') :
+    unquote (unquotePartial Gen.UrlTables.keepPath (curPathText root [])) = rstripSlash root ++ ['/'] := by
+  rw [unquote_unquotePartial keep_tables_ok.1 _ (curPathText_facts _ _ hr).2.2.2.2, unquote_curPathText]
+  rfl
+
+/-! ### `get_host` -/
+
+/-- **`get_host` on `host[:port]`, every case**: the port stays unless it is the scheme's default
+(80 for http / ws, 443 for https / wss) - no other text is cut, whatever the host looks like
+(names ending in digits, IPv4, bracketed IPv6), whatever the port. -/
+theorem get_host_on_hostport (ha scheme : Str) (port : Option Nat) :
+    getHost scheme (hostBr ha ++ portText port) = hostBr ha ++ portText (dropDefaultPort scheme port) :=
+  getHost_hostport ha scheme port
+
+example : dropDefaultPort "https".toList (some 443) = none ∧ dropDefaultPort "https".toList (some 80) = some 80 ∧
+    dropDefaultPort "ftp".toList (some 80) = some 80 := by decide
+
+/-- the default-port rules read from `get_host`'s source (AST) are the ones the model implements, the
+number of characters cut is the length of the suffix tested, and the model agrees with the live
+function on the whole generated scheme x host table (hosts ending in the port's digits, IPv6
+literals, malformed ports) -/
+theorem get_host_tables_agree :
+    Gen.UrlGlue.getHostRules = [(["http", "ws"], ":80", 3), (["https", "wss"], ":443", 4)] ∧
+    (∀ r ∈ Gen.UrlGlue.getHostRules, r.2.1.length = r.2.2 ∧
+      ∀ s ∈ r.1, getHost s.toList ("h".toList ++ r.2.1.toList) = "h".toList) ∧
+    (∀ row ∈ Gen.UrlGlue.getHostTable, getHost row.1.toList row.2.1.toList = row.2.2.toList) := by
+  refine ⟨by decide, by decide, by decide +kernel⟩
+
+/-- `EnvironBuilder.server_name` / `server_port` (SERVER_NAME / SERVER_PORT of the environ): the model
+agrees with the live object on the generated scheme x host table - 443 for https, 80 otherwise, the
+host's own port when it is numeric; `[::1]:5000` is split at its FIRST colon -/
+theorem builder_server_table_agrees :
+    ∀ row ∈ Gen.UrlGlue.builderServerTable,
+      let b : Builder := { path := [], requestUri := [], scriptRoot := [], host := row.2.1.toList,
+                           urlScheme := row.1.toList, queryString := none, args := none }
+      b.serverName = row.2.2.1.toList ∧ b.serverPort = row.2.2.2 := by
+  decide +kernel
+
+/-! ### the glue's constants and shapes, regenerated from the source on every run -/
+
+/-- each keep-quoted table of `uri_to_iri` (evaluated from the live compiled pattern) is exactly
+`_always_unsafe` plus the literal given at its `_make_unquote_part` call (AST) -/
+theorem keep_tables_are_always_unsafe_plus_extra :
+    Gen.UrlGlue.keepExtra.map (fun r => r.2.1) = ["fragment", "query", "path", "user"] ∧
+    (∀ r ∈ Gen.UrlGlue.keepExtra.zip
+        [Gen.UrlTables.keepFragment, Gen.UrlTables.keepQuery, Gen.UrlTables.keepPath, Gen.UrlTables.keepUser],
+      ∀ n, n < 256 → tbl r.2 n =
+        (Gen.UrlTables.alwaysUnsafe.contains n || (n < 128 && r.1.2.2.contains (Char.ofNat n)))) := by
+  refine ⟨by decide, ?_⟩
+  decide +kernel
+
+/-- `EnvironBuilder.get_environ` builds SCRIPT_NAME / PATH_INFO / QUERY_STRING / REQUEST_URI / RAW_URI /
+SERVER_NAME / SERVER_PORT / HTTP_HOST / wsgi.url_scheme from exactly the expressions the model
+(`Builder.environ`) implements (dict literal, `_path_encode`, `raw_uri`; AST, and nothing writes these
+keys afterwards) -/
+theorem environ_entries_pinned :
+    Gen.UrlGlue.environEntries = [
+      ("SCRIPT_NAME", "_path_encode(self.script_root)"), ("PATH_INFO", "_path_encode(self.path)"),
+      ("QUERY_STRING", "_wsgi_encoding_dance(self.query_string)"), ("REQUEST_URI", "raw_uri"),
+      ("RAW_URI", "raw_uri"), ("SERVER_NAME", "self.server_name"), ("SERVER_PORT", "str(self.server_port)"),
+      ("HTTP_HOST", "self.host"), ("wsgi.url_scheme", "self.url_scheme"),
+      ("_path_encode(x)", "return _wsgi_encoding_dance(unquote(x))"),
+      ("raw_uri", "_wsgi_encoding_dance(self.request_uri)")] := by decide
+
+/-- the URL helper calls of every glue function the model covers, in source order (AST): a new or
+removed `quote` / `unquote` / `urlsplit` / `iri_to_uri` / dance call in `EnvironBuilder`, `Request`,
+`get_current_url` or `ProxyFix._get_real_value` changes this table -/
+theorem call_sites_pinned :
+    Gen.UrlGlue.callSites = [
+      ("test.py", "EnvironBuilder.__init__", ["urlsplit", "iri_to_uri", "iri_to_uri"]),
+      ("test.py", "EnvironBuilder.from_environ",
+        ["_wsgi_decoding_dance", "cls._make_base_url", "_wsgi_decoding_dance", "_wsgi_decoding_dance"]),
+      ("test.py", "EnvironBuilder._make_base_url", ["urlunsplit"]),
+      ("test.py", "EnvironBuilder.base_url", ["self._make_base_url"]),
+      ("test.py", "EnvironBuilder.base_url@setter", ["urlsplit"]),
+      ("test.py", "EnvironBuilder.query_string", ["_urlencode"]),
+      ("test.py", "EnvironBuilder.get_environ",
+        ["_urlencode", "_wsgi_encoding_dance", "unquote", "_wsgi_encoding_dance", "_path_encode", "_path_encode",
+         "_wsgi_encoding_dance"]),
+      ("sansio/utils.py", "get_current_url", ["uri_to_iri", "quote", "uri_to_iri", "quote", "quote", "uri_to_iri"]),
+      ("wsgi.py", "get_current_url",
+        ["get_host", "_wsgi_decoding_dance", "_wsgi_decoding_dance", "_sansio_utils.get_current_url"]),
+      ("wrappers/request.py", "Request.__init__", ["_wsgi_decoding_dance", "_wsgi_decoding_dance"]),
+      ("sansio/request.py", "Request.args", ["parse_qsl"]),
+      ("sansio/request.py", "Request.url", ["get_current_url"]),
+      ("sansio/request.py", "Request.base_url", ["get_current_url"]),
+      ("sansio/request.py", "Request.root_url", ["get_current_url"]),
+      ("sansio/request.py", "Request.host_url", ["get_current_url"]),
+      ("sansio/request.py", "Request.host", ["get_host"]),
+      ("middleware/proxy_fix.py", "ProxyFix._get_real_value", ["parse_list_header"]),
+      ("urls.py", "_urlencode", ["urlencode"])] := by decide
+
+/-! ### ProxyFix -/
+
+/-- **ProxyFix never touches PATH_INFO**, whatever the trust counts and the forwarded headers - so
+`Request.path` behind the middleware is the path the server received ("path-dispatching middleware
+preserves ... path info": ProxyFix does not dispatch, it only REPLACES SCRIPT_NAME, see below). -/
+theorem proxyfix_preserves_path_info (c : PFConfig) (h : PFHeaders) (e : PFEnviron) :
+    (proxyFix c h e).pathInfo = e.pathInfo ∧
+    requestPath (proxyFix c h e).pathInfo = requestPath e.pathInfo := by
+  rw [proxyFix_pathInfo]; exact ⟨rfl, rfl⟩
+
+/-- ... at the source level: the environ keys `ProxyFix.__call__` assigns (AST, per trusted header)
+are exactly those of the model, PATH_INFO and QUERY_STRING are not among them, and `_get_real_value`
+is the statement sequence the model implements (`values[-trusted]`) -/
+theorem proxyfix_writes_pinned :
+    Gen.UrlGlue.proxyFixWrites = [
+      ("x_for", "HTTP_X_FORWARDED_FOR", ["REMOTE_ADDR"]),
+      ("x_proto", "HTTP_X_FORWARDED_PROTO", ["wsgi.url_scheme"]),
+      ("x_host", "HTTP_X_FORWARDED_HOST", ["HTTP_HOST", "SERVER_NAME", "SERVER_NAME", "SERVER_PORT"]),
+      ("x_port", "HTTP_X_FORWARDED_PORT", ["HTTP_HOST", "SERVER_PORT"]),
+      ("x_prefix", "HTTP_X_FORWARDED_PREFIX", ["SCRIPT_NAME"])] ∧
+    (∀ r ∈ Gen.UrlGlue.proxyFixWrites, ¬ "PATH_INFO" ∈ r.2.2 ∧ ¬ "QUERY_STRING" ∈ r.2.2) ∧
+    Gen.UrlGlue.realValueBody = ["if not (trusted and value): return None", "values = parse_list_header(value)",
+      "if len(values) >= trusted: return values[-trusted]", "return None"] ∧
+    Gen.UrlGlue.dispatcherWrites = ["SCRIPT_NAME", "PATH_INFO"] := by decide
+
+/-- **`X-Forwarded-Prefix` REPLACES SCRIPT_NAME** (it is not prepended; the original is only kept in
+`werkzeug.proxy_fix.orig`), and only when a non-empty trusted value exists; otherwise SCRIPT_NAME is
+unchanged. So ProxyFix does NOT preserve SCRIPT_NAME + PATH_INFO - what it preserves is PATH_INFO. -/
+theorem proxyfix_prefix_replaces_script_name (c : PFConfig) (h : PFHeaders) (e : PFEnviron) :
+    (proxyFix c h e).scriptName =
+      (match truthyV (realValue c.xPrefix h.pfx) with | some v => v | none => e.scriptName) :=
+  proxyFix_scriptName c h e
+
+/-- the scheme is the trusted `X-Forwarded-Proto` value when there is one -/
+theorem proxyfix_scheme (c : PFConfig) (h : PFHeaders) (e : PFEnviron) :
+    (proxyFix c h e).urlScheme =
+      (match truthyV (realValue c.xProto h.proto) with | some v => v | none => e.urlScheme) :=
+  proxyFix_urlScheme c h e
+
+/-- **`_get_real_value` picks the `n`-th value counted from the RIGHT** (the one appended by the
+outermost trusted proxy), and nothing when fewer than `n` values are present or `n = 0`. -/
+theorem proxyfix_nth_from_right (n : Nat) (vs : List Str) (v : Str) :
+    realValue n (some vs) = some v ↔ 0 < n ∧ vs.reverse[n - 1]? = some v :=
+  realValue_spec n vs v
+
+example : realValue 2 (some ["a".toList, "b".toList, "c".toList]) = some "b".toList ∧
+    realValue 4 (some ["a".toList, "b".toList, "c".toList]) = none ∧
+    realValue 0 (some ["a".toList]) = none := by decide
+
+/-- **`X-Forwarded-Port` replaces or appends the port of HTTP_HOST and nothing else**: for a host of
+the form `host[:port]` - a name, an IPv4 address or a bracketed IPv6 literal, with or without a port -
+and a trusted non-empty port value `v`, the new HTTP_HOST is `host:v` (the brackets of an IPv6 literal
+stay, an old port is dropped). -/
+theorem proxyfix_port_replaces (c : PFConfig) (hd : PFHeaders) (e : PFEnviron) (h v : Str) (p : Option Nat)
+    (hne : h ≠ []) (hh : e.httpHost = some (hostBr h ++ portText p))
+    (hv : truthyV (realValue c.xPort hd.port) = some v) :
+    (applyPort c hd e).httpHost = some (hostBr h ++ ':' :: v) ∧ (applyPort c hd e).serverPort = v := by
+  have hne' : hostBr h ++ portText p ≠ [] := by
+    intro he
+    have h1 := (List.append_eq_nil_iff.mp he).1
+    unfold hostBr at h1
+    split at h1
+    · cases h1
+    · exact hne h1
+  have ht : truthyV e.httpHost = some (hostBr h ++ portText p) := by
+    rw [hh]
+    cases hx : hostBr h ++ portText p with
+    | nil => exact absurd hx hne'
+    | cons _ _ => rfl
+  unfold applyPort
+  simp only [hv, ht, stripPort_hostport, and_self]
+
+example : (proxyFix ⟨0, 0, 0, 1, 1⟩ ⟨none, none, none, some ["8443".toList], some ["/app".toList]⟩
+    { remoteAddr := none, urlScheme := "http".toList, httpHost := some "[::1]:5000".toList,
+      serverName := "::1".toList, serverPort := "5000".toList, scriptName := "/old".toList,
+      pathInfo := "/p".toList })
+    = { remoteAddr := none, urlScheme := "http".toList, httpHost := some "[::1]:8443".toList,
+        serverName := "::1".toList, serverPort := "8443".toList, scriptName := "/app".toList,
+        pathInfo := "/p".toList } := by decide
 
 end Wz.Props.C15
